@@ -30,7 +30,7 @@ EXPLANATION = (
     'h constants - every cell of that table incl. literals framed as the writer frames them (payloads beginning with CR / L'
     'F); splitQuoted decides on the unit, its predecessor and two flags - every writer output for payloads <= 3 over the cl'
     'ass alphabet: escaped quotes are undone, the doubled escape unit is not collapsed (known finding F42, two constructs).'
-    ' BOUNDED only: _needsLiteral on strings over {CR, LF, other}^<=3, one collapseNestedLists call per item kind and posit'
+    ' In splitQuoted / parseNestedParens an enumerate index counted along a front-stripped, front-cut or rewritten copy never subscripts the original text, and no count / find / split / in-test looks for a list delimiter in the whole raw input. BOUNDED only: the whole reader on writer output with quote- and delimiter-carrying strings and literals at every position class of a list {first, after atom, quoted string, nested list, literal}; _needsLiteral on strings over {CR, LF, other}^<=3, one collapseNestedLists call per item kind and posit'
     'ion (kinds beyond None/int/bytes/list are application objects), atoms / NIL, collapseStrings and the whole reader on e'
     'numerated structures - structure equality over all nested inputs is an infinite domain.'
 )
@@ -255,7 +255,7 @@ def check(ctx):
         # position x content grid.  What can precede a run of text inside one list level is complete as {nothing, atom, quoted string, nested list, literal}
         # (the item kinds of the writer); the text itself carries the bytes the quoting rules name as legal data: quotes, unbalanced list delimiters, blanks
         before = {"first": [], "after an atom": [12], "after a quoted string": [b"a b"], "after a nested list": [[b"x"]], "after a literal": [b"l\nm"]}
-        texts = [b'say "hi"', b'q"', b'"', b"thanks :-)", b"(", b"[[", b"])", b"a b", b"(\n", b"x\r\n]", b'"\n']
+        texts = [b'say "hi"', b'q"', b'"', b"thanks :-)", b"(", b"[[", b"])", b"a b", b"(\nx", b"x\r\n]", b'"\ny']       # (literals here do not end in white space: the reader strips its whole input first)
         bad_pos = None
         n_pos = 0
         for pos, pre in before.items():
@@ -290,9 +290,17 @@ def check(ctx):
                 n_loops += 1
                 idx = lp_.target.elts[0].id
                 seq = lp_.iter.args[0]
-                derived_from = {x.func.value.id for x in ast.walk(seq) if isinstance(x, ast.Call) and isinstance(x.func, ast.Attribute) and isinstance(x.func.value, ast.Name)
-                                and x.func.attr in ("strip", "lstrip", "rstrip", "replace", "expandtabs", "lower", "upper")}
-                derived_from |= {x.value.id for x in ast.walk(seq) if isinstance(x, ast.Subscript) and isinstance(x.value, ast.Name) and isinstance(x.slice, ast.Slice)}
+                # expressions the sequence is made of: the argument itself plus the single local definition of every name in it
+                parts = [seq]
+                for nm_ in [x for x in ast.walk(seq) if isinstance(x, ast.Name)]:
+                    ds = [st.value for st in ast.walk(fr_) if isinstance(st, ast.Assign) and len(st.targets) == 1 and isinstance(st.targets[0], ast.Name) and st.targets[0].id == nm_.id]
+                    if len(ds) == 1 and not any(isinstance(y, ast.Name) and y.id == nm_.id for y in ast.walk(ds[0])):
+                        parts.append(ds[0])
+                # operations that move positions: stripping / cutting at the front, rewriting; (rstrip, s[:n], s[:] keep them)
+                derived_from = {x.func.value.id for pt in parts for x in ast.walk(pt) if isinstance(x, ast.Call) and isinstance(x.func, ast.Attribute)
+                                and isinstance(x.func.value, ast.Name) and x.func.attr in ("strip", "lstrip", "replace", "expandtabs")}
+                derived_from |= {x.value.id for pt in parts for x in ast.walk(pt) if isinstance(x, ast.Subscript) and isinstance(x.value, ast.Name)
+                                 and isinstance(x.slice, ast.Slice) and x.slice.lower is not None}
                 uses = [x for b_ in lp_.body for x in ast.walk(b_) if isinstance(x, ast.Subscript) and isinstance(x.value, ast.Name)
                         and any(isinstance(n_, ast.Name) and n_.id == idx for n_ in ast.walk(x.slice))]
                 for x in uses:
@@ -474,8 +482,13 @@ MUTANTS = [
            "                inQuote = False\n                w = empty.join(word)\n                result.append(None if w == nil else w)\n                word = []\n", expect_rule="reader/"),
     Mutant("literal-retokenized", IMAP, '        1: lambda e: [b"".join([i[0] for i in e])],\n', '        1: lambda e: splitQuoted(b"".join([i[0] for i in e])),\n',
            expect_rule="reader/literal-bypasses-tokenizer"),
+    Mutant('tokenizer-scans-a-stripped-copy-but-looks-behind-in-the-original', IMAP, '    s = s.strip()\n    result = []\n    word = []\n', '    text = s.strip()\n    result = []\n    word = []\n', more=[(IMAP, '    for i, c in enumerate(iterbytes(s)):\n        if c == qu:\n            if i and s[i - 1 : i] == esc:\n', '    for i, c in enumerate(iterbytes(text)):\n        if c == qu:\n            if i and s[i - 1 : i] == esc:\n')], expect_rule='reader-table/index-base-agrees'),
+    Mutant('paren-balance-prechecked-on-raw-input', IMAP, '    s = s.strip()\n    inQuote = 0\n    contentStack = [[]]\n', '    s = s.strip()\n    depth = s.count(b"(") - s.count(b")")\n    if depth:\n        raise MismatchedNesting(s)\n    inQuote = 0\n    contentStack = [[]]\n', expect_rule='reader-table/no-raw-delimiter-scan'),
+    Mutant('open-bracket-without-close-bracket-rejected-up-front', IMAP, '    s = s.strip()\n    inQuote = 0\n    contentStack = [[]]\n', '    s = s.strip()\n    if b"[" in s and b"]" not in s:\n        raise MismatchedNesting(s)\n    inQuote = 0\n    contentStack = [[]]\n', expect_rule='roundtrip/text-at-every-position'),
 ]
 SILENT = [
+    Silent('tokenizer-scans-and-looks-behind-in-the-same-stripped-copy', IMAP, '    s = s.strip()\n    result = []\n    word = []\n', '    text = s.strip()\n    result = []\n    word = []\n', more=[(IMAP, '    for i, c in enumerate(iterbytes(s)):\n        if c == qu:\n            if i and s[i - 1 : i] == esc:\n', '    for i, c in enumerate(iterbytes(text)):\n        if c == qu:\n            if i and text[i - 1 : i] == esc:\n')]),
+    Silent('tokenizer-scans-a-whole-slice-copy', IMAP, '    for i, c in enumerate(iterbytes(s)):\n        if c == qu:\n            if i and s[i - 1 : i] == esc:\n', '    for i, c in enumerate(iterbytes(s[:])):\n        if c == qu:\n            if i and s[i - 1 : i] == esc:\n'),
     Silent('nil-atom-from-a-private-object', IMAP, '            pieces.extend([b" ", b"NIL"])\n', '            pieces.extend([b" ", _NIL_ATOM.label.encode("ascii")])\n', more=[(IMAP, 'def collapseNestedLists(items):\n', 'class _Atom:\n    def __init__(self, label):\n        self.label = label\n\n\n_NIL_ATOM = _Atom("NIL")\n\n\ndef collapseNestedLists(items):\n')]),
     Silent("quote-as-loop", IMAP, "    return qu + s.replace(esc, esc + esc).replace(qu, esc + qu) + qu\n",
            "    for ch in (esc, qu):\n        s = s.replace(ch, esc + ch)\n    return qu + s + qu\n"),
